@@ -183,10 +183,6 @@ func (la *LeapArray) CurrentBucket(bg BucketGenerator) (*BucketWrap, error) {
 }
 
 func (la *LeapArray) currentBucketOfTime(now uint64, bg BucketGenerator) (*BucketWrap, error) {
-	if now <= 0 {
-		return nil, errors.New("Current time is less than 0.")
-	}
-
 	idx := la.calculateTimeIdx(now)
 	bucketStart := calculateStartTime(now, la.bucketLengthInMs)
 
@@ -245,9 +241,6 @@ func (la *LeapArray) Values() []*BucketWrap {
 }
 
 func (la *LeapArray) valuesWithTime(now uint64) []*BucketWrap {
-	if now <= 0 {
-		return make([]*BucketWrap, 0)
-	}
 	ret := make([]*BucketWrap, 0, la.array.length)
 	for i := 0; i < la.array.length; i++ {
 		ww := la.array.get(i)
@@ -262,9 +255,6 @@ func (la *LeapArray) valuesWithTime(now uint64) []*BucketWrap {
 // ValuesConditional returns all buckets of which the startTimestamp satisfies the given timestamp condition (predicate).
 // The function uses the parameter "now" as the target timestamp.
 func (la *LeapArray) ValuesConditional(now uint64, predicate base.TimePredicate) []*BucketWrap {
-	if now <= 0 {
-		return make([]*BucketWrap, 0)
-	}
 	ret := make([]*BucketWrap, 0, la.array.length)
 	for i := 0; i < la.array.length; i++ {
 		ww := la.array.get(i)
